@@ -5,7 +5,7 @@ from . import common as C, solvers as S
 from .c04 import qf, finite
 
 IMP_SOL = "From Rooc Require Import Base.XQ Model.Exp Model.Bounds Model.Linearize Cert.LP Cert.Bridge Cert.Solution."
-IMP_MAP = "From Rooc Require Import Model.StatusMap."
+IMP_MAP = "From Coq Require Import QArith.\nFrom Rooc Require Import Model.StatusMap."
 RAW = {"Optimal": "RawOptimal", "Feasible": "RawFeasible", "Interrupted": "RawInterrupted"}
 
 
@@ -51,7 +51,10 @@ def run(ctx):
         if invalid_gap and st == "ok":
             fails.append(dict(base, kind="invalid-option-accepted", **{"class": "unclassified"}))
         if r.get("raw") in RAW:
-            pairs.append("(%s, %s)" % (RAW[r["raw"]], outcome_of(r)))
+            g = None if gap is None or gap in ("NaN", "inf", "-inf") else gap
+            obs = "(mkObs %s %s %s)" % ("None" if g is None else "(Some %s)" % qf(g), qf(r["value"]) if st == "ok" and finite(r.get("value", "NaN")) else "0%Q",
+                                        "None" if r.get("bound") is None else "(Some %s)" % qf(r["bound"]))
+            pairs.append("(%s, %s, %s)" % (RAW[r["raw"]], obs, outcome_of(r)))
             pair_meta.append(base)
         if r.get("raw") == "Interrupted" and st == "ok":
             fails.append(dict(base, kind="solution-returned-although-search-was-interrupted", **{"class": "unclassified"}))
@@ -69,12 +72,19 @@ def run(ctx):
                 v, t = float(r["value"]), float(tval)
                 if abs(v - t) > g * max(abs(v), abs(t)) + 1e-6 * max(1.0, abs(t)):
                     fails.append(dict(base, kind="labelled-optimal-outside-requested-gap", value=v, certified_optimum=str(tval), **{"class": "unclassified"}))
+            if code == 1 and m["dir"] != "sat" and r.get("bound") is not None and finite(r["bound"]):
+                # the hypothesis of optimal_label_within_gap_of_optimum: the proven bound and the value bracket the true optimum
+                v, t, b = float(r["value"]), float(tval), float(r["bound"])
+                tol = 1e-6 * max(1.0, abs(t), abs(v))
+                lo, hi = (b, v) if m["dir"] == "min" else (v, b)
+                if not (lo - tol <= t <= hi + tol):
+                    fails.append(dict(base, kind="proven-bound-does-not-bracket-the-optimum", value=v, bound=b, certified_optimum=str(tval), **{"class": "unclassified"}))
             if code == 2:
                 fails.append(dict(base, kind="solution-returned-for-infeasible-model", **{"class": "unclassified"}))
     bad, errors = C.eval_cases(ctx, "sol", IMP_SOL, "solcase", sol_lines, fn="sol_failures", shard=300)
     for j in bad:
         fails.append(dict(sol_meta[j], kind="returned-point-infeasible", **{"class": "unclassified"}))
-    badp, e2 = C.eval_cases(ctx, "map", IMP_MAP, "(raw * outcome)", pairs, fn="pair_failures", shard=2000)
+    badp, e2 = C.eval_cases(ctx, "map", IMP_MAP, "(raw * obs * outcome)", pairs, fn="pair_failures", shard=2000)
     errors += e2
     if errors:
         ctx.broken.append("evaluation failed in Coq: %s" % errors[0][1][-400:])
@@ -100,8 +110,9 @@ def run(ctx):
         "returned_points_checked": len(sol_lines),
         "failures_unlisted": new,
         "trusted_base": C.TRUSTED_BASE_COMMON[:1] + [
-            "Model/StatusMap.v (decision table of rooc's wrapper, theorem wrap_never_mislabels) tied to the code by comparing every observed (raw status, returned label) pair",
-            "guarded hook rooc::milp_verif_hooks::take_raw_status (thread-local record of microlp's status)",
+            "Model/StatusMap.v (decision table of rooc's wrapper including the re-measured gap; theorems wrap_never_mislabels, optimal_label_within_gap_of_optimum) tied to the code by comparing every observed (raw status, requested gap, reported value, shifted bound, returned label) tuple; a relabelling decision within 1e-9 of its threshold may fall either way (f64)",
+            "guarded hooks rooc::milp_verif_hooks::take_raw_status / take_raw_bound (thread-local record of microlp's status and proven bound)",
+            "assumed of microlp, not proved: its proven bound and the returned value bracket the true optimum (hypothesis of optimal_label_within_gap_of_optimum); checked on every run against the certified optimum",
             "Cert/Solution.v check_solution (proved sound) for every returned point; certified optimum by exhaustive enumeration in Coq (Cert/Bridge.v enum_truth, executed)",
             "not modelled: wall-clock time and microlp's search - WHICH raw status a given limit produces is runtime behaviour; only time_limit=0 and generous limits are deterministic"],
     })
